@@ -152,11 +152,12 @@ class Render(Contract):
 
 
 class DefaultErrorHandler(Contract):
-    props = ('C20',)
+    props = ('C20', 'C02', 'C08', 'C09')
     file = 'ombott/ombott.py'
     qualname = 'Ombott.default_error_handler'
     assumptions = ('json.dumps of a dict of str/None values returns valid JSON (library)',)
-    expected_labels = ('json.body_is_json_dumps_of_a_dict', 'json.content_type_set', 'html.rendered_with_request_url_and_configured_debug')
+    expected_labels = ('json.body_is_json_dumps_of_a_dict', 'json.content_type_set', 'html.rendered_with_request_url_and_configured_debug',
+                       'post.returns_the_page_text_itself')
 
     def pre(self, X):
         self.want_json = X.choose(2, 'JSON requested?') == 1
@@ -179,7 +180,8 @@ class DefaultErrorHandler(Contract):
         me = VObj('App', {'request': VObj('Request', {'is_json_requested': VBool(self.want_json), 'url': self.url}),
                           'response': VObj('Response', {'headers': self.hdr}),
                           'config': VObj('Config', {'debug': self.debug, 'catchall': X.fresh_bool('config_catchall')})})
-        self.res = VObj('ErrResp', {'body': X.fresh_str('body'), 'exception': VOpaque(X.fresh(PyObj, 'exc')),
+        self.res = VObj('ErrResp', {'body': X.fresh_str('body'), 'status': X.fresh_str('status'), 'status_code': X.fresh_int('code'),
+                                    'exception': VOpaque(X.fresh(PyObj, 'exc')),
                                     'traceback': VOpaque(X.fresh(PyObj, 'tb'))})
         self.stored = {}
         return {'self': me, 'res': self.res}
@@ -192,6 +194,8 @@ class DefaultErrorHandler(Contract):
     def construct_hook(self, X, pyclass, args, kwargs):
         if pyclass is dict and not args:
             return VObj('StrDict', dict(kwargs))
+        if getattr(pyclass, '__name__', '') in ('HTTPResponse', 'HTTPError'):
+            return VObj('NewResponse', {})
         return None
 
     def setitem_hook(self, X, obj, key, val):
@@ -201,6 +205,9 @@ class DefaultErrorHandler(Contract):
         return False
 
     def post(self, X, ret):
+        # the handler returns the page TEXT: _cast applies the raised error (status, Allow and the other headers of the error) to
+        # the response and then sends this text - a response object returned here would be applied over it and drop those headers
+        X.prove('post.returns_the_page_text_itself', z3.BoolVal(isinstance(ret, VStr)))
         if self.want_json:
             ok = len(self.calls) == 1 and self.calls[0][0] == 'dumps' and isinstance(self.calls[0][1][0], VObj) \
                 and self.calls[0][1][0].cls == 'StrDict'
